@@ -6,7 +6,7 @@
    stream is cut into reads, what select reports, how many bytes each send accepts, EOF). *)
 From Coq Require Import List Arith Bool ZArith.
 From WV Require Import Model.ChanPipe Proof.ChanPipeBase Proof.ChanPipeOwn Proof.ChanPipeLog
-                       Proof.ChanPipeOut Proof.ChanPipeOutStep Proof.ChanPipeQuiet Proof.ChanPipeSpec Proof.ChanPipeRefute.
+                       Proof.ChanPipeOut Proof.ChanPipeOutStep Proof.ChanPipeQuiet Proof.ChanPipeArr Proof.ChanPipeSpec Proof.ChanPipeRefute.
 Import ListNotations.
 
 (* At most one worker owns the connection (is between taking the channel off the dispatcher queue
@@ -36,6 +36,13 @@ Theorem C04_once : forall (P : params) (sched : list choice),
   prefix (starts s) (arrivals s) /\ (starts s = execs s \/ exists x, starts s = execs s ++ [x]).
 Proof. exact once. Qed.
 Print Assumptions C04_once.
+
+(* No request id occurs twice among the arrivals, hence none is started or executed twice. *)
+Theorem C04_once_nodup : forall (P : params) (sched : list choice),
+  let s := sh (run P sched) in
+  NoDup (arrivals s) /\ NoDup (starts s) /\ NoDup (execs s).
+Proof. exact once_nodup. Qed.
+Print Assumptions C04_once_nodup.
 
 (* Exactly once: when no worker can move any more (every pool worker is parked in queue_cv.wait() and
    has not been notified) and the I/O thread is not in the middle of add_task, then on an open
